@@ -8,7 +8,9 @@ LEVEL = 'proof'
 GEN_TIES = {'Pairwin': 'Props/GenTie_Pairwin.v'}
 TIE = {'condorcet.Copeland/Schulze/MinimaxCondorcet/RankedPairs/KemenyYoung': 'correspondence',
        'component/pairwin_scorer.py': 'translator (Gen/Pairwin.v regenerated on every run, Props/GenTie_Pairwin.v proves it equal to the '
-                                      'scorers of Model/Condorcet.v) + correspondence through minimax / ranked pairs'}
+                                      'scorers of Model/Condorcet.v) + correspondence through minimax / ranked pairs',
+       'sequential.Benham / TidemanAlternative / eliminate_one, RANKED_TO_CONDORCET, RANKED_SUBSETTER': 'correspondence (Model/Hybrids.v, '
+       'units 200-204; the model has the elimination step as written and as repaired, the harness probes which one the implementation has)'}
 RULE = ('corpus; random pairwise dictionaries over 3..6 candidates (Kemeny <= 5): profile-derived (truncation, shared ranks, both '
         'unranked_at_bottom), arbitrary sparse, dense with exact ties, forced Condorcet winners, counts x 1e25; every entry of '
         'condorcet.EVALUATORS, n_seats 1..|C|. Compared with the model (exact list, ties as sets) and judged by the declarative '
@@ -16,9 +18,16 @@ RULE = ('corpus; random pairwise dictionaries over 3..6 candidates (Kemeny <= 5)
         '(brute-force argmax); Smith-efficient winner in the brute-force Smith set; nobody dropped when '
         'n = |C|. profile-derived: ranked profiles (truncation, bullet votes, shared ranks, unranked_at_bottom both ways) through the LIBRARY\'s '
         'RankedToCondorcetVotes into every EVALUATORS entry, and Benham / TidemanAlternative on the profile itself, judged against the Condorcet winner / Smith set of an '
-        'INDEPENDENT pairwise count of the profile (harness). non-trivial = no Condorcet winner or a pairwise tie or a missing reverse pair; distinct by case hash')
-PARTIAL = ['Benham / TidemanAlternative: no Coq model; their Condorcet-winner and Smith clauses are judged on the implementation (stream profile-derived) '
-           'against an independent pairwise count of the ranked profile']
+        'INDEPENDENT pairwise count of the profile (harness). hybrids: ranked profiles over 1..6 candidates (bullet votes, truncation, shared '
+        'ranks, zero weights, weights up to 1e25, three-cycles with equal blocks so that first preferences tie) through Benham / '
+        'TidemanAlternative (n_seats 1, and 2 while the further tiers raise TypeError), RANKED_TO_CONDORCET, RANKED_SUBSETTER and '
+        'eliminate_one, compared with Model/Hybrids.v (result list, tie objects as sets, error kind) and judged by the declarative clauses '
+        'on the implementation\'s answer (Condorcet winner alone; plain winner in the brute-force Smith set; no undeclared exception). '
+        'non-trivial = no Condorcet winner or a pairwise tie or a missing reverse pair; distinct by case hash')
+PARTIAL = ['Benham: Smith containment is a theorem for the repaired elimination step only (C05_smith_benham, fx = true); for the step as '
+           'written on the pinned tree it is refuted (C05_smith_benham_refuted, known finding C05-hybrid-elimination-tie)',
+           'hybrids: IndexError on a profile whose pairwise dictionary is empty (single candidate; known finding C05-hybrid-empty-pairwise); '
+           'the Smith theorem for Benham assumes a non-empty dictionary']
 TRUSTED = []
 METHODS = ['rankedpairs_winvotes', 'rankedpairs_margins', 'rankedpairs_pwo', 'copeland_2o', 'copeland_raw', 'schulze',
            'kemeny_young', 'minimax_winvotes', 'minimax_margins', 'minimax_pwo']
@@ -219,7 +228,15 @@ def derived_case(ctx, stream, prof, bottom, method):
                 why = 'winner %s outside the Smith set %s of the profile' % (res, sm)
     if why:
         ctx.checker_false += 1
-        ctx.report(stream, case, str(r[1:]), 'n/a', '%s: %s' % (method, why))
+        kc, io, mo = None, str(r[1:]), 'n/a'
+        if hybrid and not cw and not hyb_fixed():
+            # the pinned elimination step (a Tie object used as a candidate): known when the faithful model gives the same answer
+            hc = dict(unit='hybrid', method=method, profile=prof, n=1)
+            io = ok([list(x) if isinstance(x, tuple) else x for x in r[1]]) if r[0] == 'ok' else common.err(r[1])
+            mo = common.run_model([hyb_line(hc)])[0]
+            if hyb_canon(hc, io) == hyb_canon(hc, mo):
+                kc = lambda c, i, m: 'C05-hybrid-elimination-tie'
+        ctx.report(stream, case, io, mo, '%s: %s' % (method, why), kc)
         return 1
     return 0
 
@@ -246,6 +263,196 @@ def profile_derived(ctx, stream, count, rng):
     ctx.streams[stream] = dict(cases=n, deviations=bad)
 
 
+
+# ------------------------------------------------------------------ hybrids: Benham / TidemanAlternative against Model/Hybrids.v
+from units import BLOCK
+HB = BLOCK['C05']
+_PROBE = {}
+
+
+def hyb_fixed():
+    """does the implementation refuse a tie in the elimination step (fixes/C05-hybrid-elimination-tie.diff: 1) or does the Tie
+    object of eliminate_one leak into the candidate subset as on the pinned tree (0)?  The model has both (Model/Hybrids.v fx)."""
+    if 'fx' not in _PROBE:
+        import votelib.evaluate.sequential as seq
+        r = common.call_impl(lambda: seq.TidemanAlternative().evaluate({('A', 'B'): 1, ('B', 'A'): 1}, 1), 5)
+        _PROBE['fx'] = 1 if (r[0] == 'err' and r[1] == common.E['NIE']) else 0
+    return _PROBE['fx']
+
+
+def tiers_as_written():
+    """TidemanAlternative beyond the first tier: RANKED_SUBSETTER.convert(tier_votes) without the subset -> TypeError (pinned
+    tree, modelled as H_type); cases with n_seats > 1 are only generated while that is what the implementation does"""
+    if 'tiers' not in _PROBE:
+        import votelib.evaluate.sequential as seq
+        r = common.call_impl(lambda: seq.TidemanAlternative().evaluate({('A', 'B'): 2, ('B', 'A'): 1}, 2), 5)
+        _PROBE['tiers'] = (r[0] == 'err' and r[1] == common.E['TYPE'])
+    return _PROBE['tiers']
+
+
+def hyb_line(c):
+    m, prof = c['method'], sx(c['profile'])
+    if m == 'benham':
+        return '%d (%d %s)' % (HB + 0, hyb_fixed(), prof)
+    if m == 'tideman_alt':
+        return '%d (%d %s %d)' % (HB + 1, hyb_fixed(), prof, c['n'])
+    if m == 'to_condorcet':
+        return '%d (%s)' % (HB + 2, prof)
+    if m == 'subsetter':
+        return '%d (%s %s)' % (HB + 3, sx(c['subset']), prof)
+    return '%d (%s)' % (HB + 4, prof)
+
+
+def hyb_impl(c):
+    import evalreg
+    import votelib.evaluate.sequential as seq
+    py = evalreg.to_python('ranked', c['profile'])
+    m = c['method']
+    if m == 'benham':
+        return ok(enc_sel(seq.Benham().evaluate(py, 1)))
+    if m == 'tideman_alt':
+        return ok(enc_sel(seq.TidemanAlternative().evaluate(py, c['n'])))
+    if m == 'to_condorcet':
+        return ok([[[common.cnum(a), common.cnum(b)], k] for (a, b), k in seq.RANKED_TO_CONDORCET.convert(py).items()])
+    if m == 'subsetter':
+        sub = seq.RANKED_SUBSETTER.convert(py, [cname(x) for x in c['subset']])
+        return ok([[[sorted(common.cnum(x) for x in it) if isinstance(it, frozenset) else common.cnum(it) for it in b], w]
+                   for b, w in sub.items()])
+    return ok(enc_sel(seq.eliminate_one(py)))
+
+
+def hyb_canon(c, wire):
+    v = common.parse_sx(wire)
+    if v[0] != 0:
+        return ('err', v[1])
+    m = c['method']
+    if m == 'to_condorcet':            # a dictionary: the iteration order of the frozenset of unranked candidates is not modelled
+        return ('ok', tuple(sorted((tuple(p), k) for p, k in v[1])))
+    if m == 'subsetter':               # shared ranks are sets
+        return ('ok', tuple((tuple(tuple(sorted(it)) if isinstance(it, list) else it for it in b), w) for b, w in v[1]))
+    if m == 'eliminate_one':           # the survivors are used as a set
+        return ('ok', tuple(sorted(tuple(sorted(r)) if isinstance(r, list) else (r,) for r in v[1])), len(v[1]))
+    return ('ok', tuple(tuple(sorted(r)) if isinstance(r, list) else r for r in v[1]))
+
+
+def hyb_spec(c, io, mo):
+    """the declarative clauses on the implementation's answer, against the INDEPENDENT pairwise count of the profile"""
+    if c['method'] not in HYBRIDS:
+        return None
+    v = common.parse_sx(io)
+    pwv, allc = ref_pairwise(c['profile'], True)
+    cw = pw.ref_cw(pwv) if pwv else []
+    if v[0] != 0:
+        if v[1] == common.E['TYPE'] and c['method'] == 'tideman_alt' and c['n'] != 1 and v == common.parse_sx(mo):
+            return None                # the unimplemented further tiers of the pinned tree (C05 observes evaluate(votes, 1))
+        if not pwv:
+            c['_class'] = 'degenerate'
+            return 'undeclared exception %s on a profile whose pairwise dictionary is empty' % common.E_NAME.get(v[1], v[1])
+        if cw:
+            c['_class'] = 'cw-refused'
+            return 'refuses (%s) although %s is the Condorcet winner of the profile' % (common.E_NAME.get(v[1], v[1]), cw)
+        if v[1] == common.E['NIE']:
+            return None                # the declared refusal
+        c['_class'] = 'tie-leak'
+        return 'undeclared exception %s' % common.E_NAME.get(v[1], v[1])
+    res = v[1]
+    if cw and res != [cw[0]]:
+        c['_class'] = 'cw'
+        return 'Condorcet winner %s of the profile (independent pairwise count) not elected alone: %s' % (cw, res)
+    if pwv and len(res) == 1 and not isinstance(res[0], list):
+        sm = pw.ref_smith(pwv)
+        if res[0] not in sm:
+            c['_class'] = 'tie-leak'
+            return 'winner %s outside the Smith set %s of the profile' % (res, sm)
+    return None
+
+
+def hyb_known(c, io, mo):
+    if hyb_canon(c, io) != hyb_canon(c, mo):
+        return None
+    cls = c.get('_class')
+    if cls == 'degenerate':
+        return 'C05-hybrid-empty-pairwise'
+    if cls == 'tie-leak' and not hyb_fixed():
+        return 'C05-hybrid-elimination-tie'
+    return None
+
+
+def hyb_nontrivial(c):
+    pwv, _ = ref_pairwise(c['profile'], True)
+    return bool(pwv) and not pw.ref_cw(pwv)
+
+
+def gen_hyb_ballot(rng, ids, shared_p):
+    perm = ids[:]
+    rng.shuffle(perm)
+    r = rng.random()
+    if r < 0.25:
+        perm = perm[:1]                               # bullet vote
+    elif r < 0.6:
+        perm = perm[:rng.randint(1, len(perm))]       # truncated
+    out, i = [], 0
+    while i < len(perm):
+        if rng.random() < shared_p and i + 1 < len(perm):
+            k = rng.randint(2, min(3, len(perm) - i))
+            out.append(sorted(perm[i:i + k]))
+            i += k
+        else:
+            out.append(perm[i])
+            i += 1
+    return out
+
+
+def gen_hybrids(rng, count):
+    for i in range(count):
+        m = 1 if rng.random() < 0.02 else rng.choice([2, 3, 3, 4, 4, 4, 5, 5, 6])
+        ids = list(range(1, m + 1))
+        shared_p = rng.choice([0, 0, 0, 0.2])
+        style = rng.random()
+        prof = {}
+        if style < 0.2 and m >= 3:
+            # a cycle among the first three with equal blocks (no Condorcet winner, first preferences tie)
+            k = rng.randint(1, 3)
+            for rot in range(3):
+                b = [ids[(rot + j) % 3] for j in range(3)]
+                rest = ids[3:]
+                rng.shuffle(rest)
+                prof[json_key(b + rest[:rng.randint(0, len(rest))])] = k
+            for _ in range(rng.randint(0, 3)):
+                b = gen_hyb_ballot(rng, ids, shared_p)
+                prof[json_key(b)] = prof.get(json_key(b), 0) + rng.randint(1, 2)
+        else:
+            wmax = rng.choice([1, 2, 5, 5, 10 ** 25])
+            for _ in range(rng.randint(1, 7)):
+                b = gen_hyb_ballot(rng, ids, shared_p)
+                prof[json_key(b)] = prof.get(json_key(b), 0) + rng.randint(0 if rng.random() < 0.05 else 1, wmax)
+        profile = [[json_unkey(b), w] for b, w in prof.items()]
+        r = rng.random()
+        if r < 0.42:
+            yield dict(unit='hybrid', method='benham', profile=profile, n=1)
+        elif r < 0.84:
+            yield dict(unit='hybrid', method='tideman_alt', profile=profile, n=(2 if tiers_as_written() and rng.random() < 0.05 else 1))
+        elif r < 0.9:
+            yield dict(unit='hybrid', method='to_condorcet', profile=profile, n=1)
+        elif r < 0.95:
+            yield dict(unit='hybrid', method='subsetter', profile=profile, n=1, subset=[x for x in ids + [m + 1] if rng.random() < 0.6])
+        else:
+            yield dict(unit='hybrid', method='eliminate_one', profile=profile, n=1)
+
+
+def json_key(b):
+    import json
+    return json.dumps(b)
+
+
+def json_unkey(s):
+    import json
+    return json.loads(s)
+
+
+HYB_KW = dict(canon=hyb_canon, nontrivial=hyb_nontrivial, spec=hyb_spec, known_class=hyb_known, limit=20)
+
+
 def corpus():
     import os, json, glob
     for p in sorted(glob.glob(os.path.join(common.VERIF, 'corpus', ID, '*.json'))):
@@ -254,13 +461,19 @@ def corpus():
 
 def explore(ctx, widen=1):
     kw = dict(canon=canon, nontrivial=nontrivial, spec=spec, known_class=known_class, limit=20)
-    ctx.differential('corpus', corpus(), model_line, impl, **kw)
+    cp = list(corpus())
+    ctx.differential('corpus', [c for c in cp if c.get('unit') != 'hybrid'], model_line, impl, **kw)
+    ctx.differential('corpus-hybrids', [c for c in cp if c.get('unit') == 'hybrid'], hyb_line, hyb_impl, **HYB_KW)
     ctx.differential('random', gen_random(ctx.rng, ctx.n(3000, 40000) * widen), model_line, impl, **kw)
     profile_derived(ctx, 'profile-derived', ctx.n(1500, 20000) * widen, ctx.rng)
+    ctx.differential('hybrids', gen_hybrids(ctx.rng, ctx.n(4000, 60000) * widen), hyb_line, hyb_impl, **HYB_KW)
 
 
 def replay(ctx, case, stream=None):
     if case.get('kind') == 'profile-derived':
         derived_case(ctx, 'replay', case['profile'], case['bottom'], case['method'])
+        return
+    if case.get('unit') == 'hybrid':
+        ctx.differential('replay', [case], hyb_line, hyb_impl, **HYB_KW)
         return
     ctx.differential('replay', [case], model_line, impl, canon=canon, nontrivial=nontrivial, spec=spec, known_class=known_class)
